@@ -638,7 +638,11 @@ func (s *shardController) newTermQuorum() (map[model.Server]*proto.EntryId, erro
 		case r := <-ch:
 			totalResponses++
 			if r.error == nil {
-				res[r.Server] = r.EntryId
+				// Same as above: the removed nodes are fenced, but they are
+				// not candidates for leader/followers
+				if listContains(s.shardMetadata.Ensemble, r.Server) {
+					res[r.Server] = r.EntryId
+				}
 			} else {
 				err = multierr.Append(err, r.error)
 			}
